@@ -32,6 +32,11 @@ MUTANTS = [
     ("C05", "third_partial_derivative_vec: a repeated index loses a seed", "@patch", "/verif/tools/mutants05/m2_repeated_index_loses_a_seed.diff", None),
     ("C05", "second_derivative (infallible only) swaps its outputs", "@patch", "/verif/tools/mutants05/m3_infallible_second_derivative_swaps_outputs.diff", None),
     ("C05", "a depth counter left set by a failing closure changes later calls (history-dependent) and breaks nested calls", "@patch", "/verif/tools/mutants05/m4_depth_counter_left_set_by_a_failing_closure.diff", None),
+    ("C05", "seeded C05-a", "@patch", "/verif/seeded/C05-a/patch.diff", None),
+    ("C05", "seeded C05h-1: pooled argument buffer dirty after a failing closure", "@patch", "/verif/seeded/C05h-1/patch.diff", None),
+    ("C05", "seeded C05h-2: seeded record overwritten by a nested call", "@patch", "/verif/seeded/C05h-2/patch.diff", None),
+    ("C05", "seeded C05i-1: Jacobian rows shift up after a constant output", "@patch", "/verif/seeded/C05i-1/patch.diff", None),
+    ("C05", "seeded C05i-2: symmetrised Hessian overflows above MAX/2", "@patch", "/verif/seeded/C05i-2/patch.diff", None),
     # ---- C16: stored form (fault-free), and errors of the data format swallowed (only under a fault at the seam) ------
     ("C16", "Dual: result of one serialize_field ignored (hand-written Serialize)", "@patch", "/verif/tools/mutants16/m1_ser_field_error_ignored.diff", None),
     ("C16", "Dual2: real part stored under another name", "@patch", "/verif/tools/mutants16/m2_field_renamed.diff", None),
@@ -87,6 +92,8 @@ CONTROLS = [
     # independent property-preserving changes (seeded/keep-*): streamed / inline-matrix rendering, buffered single write,
     # parentheses around nested parts, brackets for one-element parts; refactored operators, single conversion of driver
     # inputs with other exception types, lenient callback results, fixed-size dispatch only up to 6
+    ("C05", "keep-C05p2", "@patch", "/verif/seeded/keep-C05p2/patch.diff", None),
+    ("C05", "keep-C05p3", "@patch", "/verif/seeded/keep-C05p3/patch.diff", None),
     ("C16", "keep-C16p1", "@patch", "/verif/seeded/keep-C16p1/patch.diff", None),
     ("C16", "keep-C16p2", "@patch", "/verif/seeded/keep-C16p2/patch.diff", None),
     ("C16", "keep-C16p3", "@patch", "/verif/seeded/keep-C16p3/patch.diff", None),
